@@ -58,4 +58,13 @@ def histogram(cases, obs):
 
 
 def classify(c, o, msg):
+    """C03-mgm2-coordinated-gain: mgm2, the cost got worse in a cycle in which a variable changed its
+    value as the committed member of a coordinated move (value_selection with _committed and _partner set)"""
+    if c["algo"] != "mgm2" or "global cost goes from" not in msg:
+        return None
+    m = L.check_monotone(c, o)
+    if m and m["kind"] == "worse":
+        coordinated = {e[1] for e in o["events"] if e[0] == "val" and len(e) > 5 and e[4] == m["cycle"]}
+        if any(x in coordinated for x in m["movers"]):
+            return "C03-mgm2-coordinated-gain"
     return None
